@@ -19,6 +19,10 @@
 #include <AIToolbox/MDP/Algorithms/Utils/PolicyEvaluation.hpp>
 #include <AIToolbox/MDP/Policies/Policy.hpp>
 #include <AIToolbox/MDP/Policies/QGreedyPolicy.hpp>
+#include <unistd.h>
+#include <poll.h>
+#include <signal.h>
+#include <sys/wait.h>
 
 using namespace verif;
 namespace M = AIToolbox::MDP;
@@ -448,6 +452,45 @@ static Gen genBig(Rng & rng, int fixed, int & tieStyle) {
     return G;
 }
 
+// PolicyIteration has no iteration bound.  On inputs where it may not return (see fixes/C01-3) the call runs in a forked child with a
+// wall-clock limit, so that non-termination becomes a protocol line (`| timeout`, a failing input) instead of a killed harness.
+template <class Mod>
+static bool runPIGuarded(const Mod & mod, const char * rep, const Gen & G, unsigned h, double tol, int limitMs, AIToolbox::Matrix2D & out) {
+    int fd[2]; if (pipe(fd) != 0) { out = runPI(mod, rep, G, h, tol); return true; }
+    std::fflush(stdout);
+    const pid_t pid = fork();
+    if (pid < 0) { close(fd[0]); close(fd[1]); out = runPI(mod, rep, G, h, tol); return true; }
+    const size_t n = G.S * G.A;
+    if (pid == 0) {
+        close(fd[0]);
+        M::PolicyIteration pi(h, tol);
+        auto q = pi(mod);
+        std::vector<double> buf(n);
+        for (size_t s = 0; s < G.S; ++s) for (size_t a = 0; a < G.A; ++a) buf[s * G.A + a] = q(s, a);
+        ssize_t w = write(fd[1], buf.data(), n * sizeof(double)); (void)w;
+        _exit(0);
+    }
+    close(fd[1]);
+    std::vector<double> buf(n); size_t got = 0; bool ok = true;
+    while (got < n * sizeof(double)) {
+        struct pollfd pf{fd[0], POLLIN, 0};
+        int r = poll(&pf, 1, limitMs);
+        if (r <= 0) { ok = false; break; }
+        ssize_t k = read(fd[0], (char *)buf.data() + got, n * sizeof(double) - got);
+        if (k <= 0) { ok = false; break; }
+        got += (size_t)k;
+    }
+    close(fd[0]);
+    if (!ok) kill(pid, SIGKILL);
+    int st; waitpid(pid, &st, 0);
+    Line l = head("pi", false, rep, G); l << h << tol << "|";
+    if (!ok) { l << "timeout"; l.emit(); std::printf("#stat pi_timeout 1\n"); return false; }
+    out.resize(G.S, G.A);
+    for (size_t s = 0; s < G.S; ++s) for (size_t a = 0; a < G.A; ++a) out(s, a) = buf[s * G.A + a];
+    putMat(l, out); l.emit();
+    return true;
+}
+
 static void runBig(Rng & rng, int fixed) {
     int tieStyle = 0;
     Gen G = genBig(rng, fixed, tieStyle);
@@ -465,9 +508,10 @@ static void runBig(Rng & rng, int fixed) {
         M::ValueIteration vi(1000000, tolVI);
         auto [var, vf, q] = vi(mod);
         { Line l = head("vi", false, rep, G); l << 1000000u << tolVI << false << "|" << var; putVec(l, vf.values); l.nats(vf.actions); putMat(l, q); l.emit(); }
-        auto qp = runPI(mod, rep, G, 1000000, tolPI);
+        AIToolbox::Matrix2D qp;
+        const bool piOK = runPIGuarded(mod, rep, G, 20000, tolPI, 2500, qp);
         auto lr = runLP(mod, rep, G);
-        if (lr.ok && qp.allFinite()) {
+        if (lr.ok && piOK && qp.allFinite()) {
             Line l = head("agree", false, rep, G); l << tolVI << tolPI << lr.prec << "|";
             putVec(l, vf.values); putActs(l, vf.actions); putMat(l, qp); putVec(l, lr.vf.values); putMat(l, lr.q); l.emit();
         }
